@@ -6,6 +6,9 @@ V = os.path.dirname(os.path.dirname(os.path.abspath(__file__)))
 TECH = "deterministic simulation with fault injection: real writer code run against a simulated kernel / target / clock / destination behind interposed libc symbols; seeded scenario search, oracle on each run, minimised replay file"
 
 CLAIMED = {
+ "C09": ("fault_enumeration", "3 C09", "Two workloads. (a) whole dumps under a destination plan (start offset, pre-existing content, short writes, EINTR, hard errors, panics at a chosen destination call) compared with the logical write history of the fault-free twin run: after success destination == pre-existing bytes overlaid with the returned image, after an abort destination == a prefix of that write history; (b) seeded operation sequences on the directory-section writer against a 30-line reference model. Faults are placed at sampled destination calls, not all of them in every run.", "Determinism of the simulation (twin runs); reference model of the directory writer in /verif/sim/src/workloads.rs accepts either order of (entry write, append) within one flush."),
+ "C10": ("fault_enumeration", "3 C10", "For each generated scenario every boundary between two consecutive destination calls of the recorded run is a crash point (exhaustive within the run), and a hard error is injected at destination calls in turn (every third call in quick, every call in thorough); the surviving bytes are decoded in prefix mode: header + full directory present, every non-zero entry and everything it references already present.", "Strict decoder; one write_all == one destination call (no short writes in this profile)."),
+ "C19": ("exploration", "3 C19", "Histories of 2..5 requests on one writer (world evolving between requests, some requests failing); before each request the simulated world is cloned and a freshly configured writer dumps the clone: images, destinations and kernel call sequences must be identical.", "Forkable deterministic world (Kernel: Clone); equality is byte-exact including the timestamp because the simulated clock is cloned too."),
  "C01": ("exploration", "3 C01", "Seeded search over target states x writer options x benign faults; every successful image is decoded by an independent strict decoder (sizes, placements, interval-overlap sweep). Evidence of absence over the sampled space, not a proof.", "Strict decoder (/verif/sim/src/decode.rs) and its size table (cross-checked at start-up against minidump-common); simulated procfs content generators."),
 }
 
